@@ -162,3 +162,53 @@ def valid_covering_case(case):
     if not isinstance(v, list) or not v:
         return False
     return all(isinstance(x, int) and x >= 1 for x in v)
+
+
+# ------------------------------------------------------------------ large inputs for the cheap heuristics
+
+LARGE_HEURISTICS = ["greedy", "kk", "roundrobin", "multifit", "ff", "ffd", "bf", "bfd", "decreasing", "twothirds", "threequarters"]
+
+
+@st.composite
+def large_heuristic_cases(draw, presentations=None, algs=None):
+    """The eleven cheap heuristics on 40-303 items (sizes around powers of two included), partitioners with 2-40 bins: far beyond the
+    sizes the exact oracles allow, for the predicates that need no optimum."""
+    alg = draw(st.sampled_from(algs or LARGE_HEURISTICS))
+    pres = draw(st.sampled_from(presentations or ["list", "list", "array", "dict-str", "dict-int", "names", "names-array"]))
+    n = draw(st.sampled_from([40, 64, 65, 100, 128, 129, 200, 256, 257, 300])) + draw(st.integers(0, 3))
+    seed = draw(st.integers(0, 2 ** 40))
+    case = {"alg": alg, "pres": pres, "nseed": draw(st.integers(0, 5))}
+    if alg in ("greedy", "kk", "roundrobin", "multifit"):
+        hi = draw(st.sampled_from([9, 1000, 10 ** 6]))
+        case.update(values=S.splitmix(seed, n, 0 if seed % 4 == 0 else 1, hi), numbins=draw(st.sampled_from([2, 3, 7, 8, 9, 16, 17, 32, 33, 40])),
+                    profile=f"large-uniform-{hi}")
+        return case
+    C = draw(st.sampled_from([10, 12, 30, 100, 101, 1000]))
+    if alg in ("ff", "ffd", "bf", "bfd"):
+        style = draw(st.sampled_from(["uniform", "small", "big", "few-values"]))
+        lo, hi = {"uniform": (0 if seed % 4 == 0 else 1, C), "small": (1, max(1, C // 3)), "big": (C // 3, C), "few-values": (1, C)}[style]
+        values = S.splitmix(seed, n, lo, hi)
+        if style == "few-values":
+            pool = S.splitmix(seed + 1, 3, 1, C)
+            values = [pool[i] for i in S.splitmix(seed, n, 0, 2)]
+    else:
+        style = draw(st.sampled_from(["uniform", "small", "classes", "with-big"]))
+        if style == "classes":
+            pool = sorted({x for x in (C // 2 - 1, C // 2, C // 2 + 1, C // 3 - 1, C // 3, C // 3 + 1, 1, 2, C - 1, C) if x >= 1})
+            values = [pool[i] for i in S.splitmix(seed, n, 0, len(pool) - 1)]
+        else:
+            lo, hi = {"uniform": (1, C), "small": (1, max(1, C // 4)), "with-big": (1, 2 * C)}[style]
+            values = S.splitmix(seed, n, lo, hi)
+    case.update(values=values, binsize=C, profile="large-" + style)
+    return case
+
+
+def valid_large_case(case):
+    v, alg = case.get("values"), case.get("alg")
+    if alg not in LARGE_HEURISTICS or not isinstance(v, list) or not (1 <= len(v) <= 400) or not all(isinstance(x, int) and x >= 0 for x in v):
+        return False
+    if alg in ("greedy", "kk", "roundrobin", "multifit"):
+        return isinstance(case.get("numbins"), int) and 1 <= case["numbins"] <= 64 and sum(v) < 2 ** 53
+    if alg in ("ff", "ffd", "bf", "bfd"):
+        return valid_packing_case(case)
+    return valid_covering_case(case)
